@@ -12,7 +12,8 @@ the same text on the 10 curves up to the byte size of a scalar and the group ord
 Go statement breaks it), and everything else is proved here ONCE about the templates:
 * `ecdsaVerifyHashT_model` / `ecdsaVerifyNoHashT_model`: run with the hand model's dictionary (`EG`: affine points with the model's
   group law and the scalar multiplication `sm`; `EF`: the field dictionary `fpE p`; Jacobian coordinates (x, y, 1) / (0, 0, 0);
-  `modInverse = invE`) the template IS `ECParams.verify` preceded by the infinity check of `SigOps` — on every input;
+  `modInverse = invE`, `isOnCurve` = the model's curve equation) the template IS `ECParams.verifyPK` (key validation: not the infinity, on the curve; then
+  `ECParams.verify`) — on every input;
 * `ecdsaVerifyNoHashT_abstract`: over any group, exactly which conjunction makes it return `(true, nil)`.
 -/
 namespace GV.SigGen
@@ -43,27 +44,61 @@ def sigSetBytesT (sz : Nat) (n : Int) (sig_R : List UInt8) (sig_S : List UInt8) 
 
 /-- TEMPLATE of the generated `PublicKey_Verify_hash` -/
 def ecdsaVerifyHashT {G Fp : Type} [Add G] [Sub G] [Neg G] [Zero G] [SMul Int G] [Add Fp] [Sub Fp] [Mul Fp] [Inv Fp] [Zero Fp] [BEq Fp] (sz : Nat) (n : Int)
-    (isInfinity : G → Bool) (modInverse : Int → Int → Int) (hashWriteOk : List UInt8 → Bool) (hashSum : List (List UInt8) → List UInt8) (hashToInt : List UInt8 → Int) (g1Gen : G) (jacZ : G → Fp) (jacX : G → Fp) (fpToInt : Fp → Int) (publicKey_A : G) (sigBin : List UInt8) (message : List UInt8) : Bool × Res :=
+    (isInfinity : G → Bool) (isOnCurve : G → Bool) (modInverse : Int → Int → Int) (hashWriteOk : List UInt8 → Bool) (hashSum : List (List UInt8) → List UInt8) (hashToInt : List UInt8 → Int) (g1Gen : G) (jacZ : G → Fp) (jacX : G → Fp) (fpToInt : Fp → Int) (publicKey_A : G) (sigBin : List UInt8) (message : List UInt8) : Bool × Res :=
   if isInfinity publicKey_A then
     (false, (Res.err "invalid public key: point at infinity"))
   else
-    let r_v1 := sigSetBytesT sz n (List.replicate sz (0 : UInt8)) (List.replicate sz (0 : UInt8)) sigBin
-    let sig_R_v1 : List UInt8 := r_v1.2.2.1
-    let sig_S_v1 : List UInt8 := r_v1.2.2.2
-    if (r_v1.2.1 != Res.ok) then
-      (false, r_v1.2.1)
+    if (!isOnCurve publicKey_A) then
+      (false, (Res.err "invalid public key: point not on curve"))
     else
-      let r_v2 : Int := Int.ofNat (GV.beToNat sig_R_v1)
-      let s_v1 : Int := Int.ofNat (GV.beToNat sig_S_v1)
-      let new_v1 : Int := modInverse s_v1 n
-      let dataToHash_v1 : List UInt8 := (List.replicate message.length (0 : UInt8))
-      let dataToHash_v2 : List UInt8 := copyBytes dataToHash_v1 message
-      if (!hashWriteOk dataToHash_v2) then
-        (false, (if (!hashWriteOk dataToHash_v2) then (Res.err "hash.Write") else Res.ok))
+      let r_v1 := sigSetBytesT sz n (List.replicate sz (0 : UInt8)) (List.replicate sz (0 : UInt8)) sigBin
+      let sig_R_v1 : List UInt8 := r_v1.2.2.1
+      let sig_S_v1 : List UInt8 := r_v1.2.2.2
+      if (r_v1.2.1 != Res.ok) then
+        (false, r_v1.2.1)
       else
-        let digest_v1 : List UInt8 := hashSum [dataToHash_v2]
-        let hramBin_v1 : List UInt8 := digest_v1
-        let hashToInt_v1 : Int := hashToInt hramBin_v1
+        let r_v2 : Int := Int.ofNat (GV.beToNat sig_R_v1)
+        let s_v1 : Int := Int.ofNat (GV.beToNat sig_S_v1)
+        let new_v1 : Int := modInverse s_v1 n
+        let dataToHash_v1 : List UInt8 := (List.replicate message.length (0 : UInt8))
+        let dataToHash_v2 : List UInt8 := copyBytes dataToHash_v1 message
+        if (!hashWriteOk dataToHash_v2) then
+          (false, (if (!hashWriteOk dataToHash_v2) then (Res.err "hash.Write") else Res.ok))
+        else
+          let digest_v1 : List UInt8 := hashSum [dataToHash_v2]
+          let hramBin_v1 : List UInt8 := digest_v1
+          let hashToInt_v1 : Int := hashToInt hramBin_v1
+          let new_v2 : Int := hashToInt_v1 * new_v1
+          let u1_v1 : Int := new_v2 % n
+          let new_v3 : Int := r_v2 * new_v1
+          let u2_v1 : Int := new_v3 % n
+          let U_v1 : G := u1_v1 • g1Gen + u2_v1 • publicKey_A
+          let U_Z_v1 : Fp := jacZ U_v1 * jacZ U_v1
+          let U_Z_v2 : Fp := U_Z_v1⁻¹
+          let U_Z_v3 : Fp := U_Z_v2 * jacX U_v1
+          let z_v1 : Int := fpToInt U_Z_v3
+          let z_v2 : Int := z_v1 % n
+          (((cmpInt z_v2 r_v2) == (0 : Int)), Res.ok)
+
+/-- TEMPLATE of the generated `PublicKey_Verify_nohash` -/
+def ecdsaVerifyNoHashT {G Fp : Type} [Add G] [Sub G] [Neg G] [Zero G] [SMul Int G] [Add Fp] [Sub Fp] [Mul Fp] [Inv Fp] [Zero Fp] [BEq Fp] (sz : Nat) (n : Int)
+    (isInfinity : G → Bool) (isOnCurve : G → Bool) (modInverse : Int → Int → Int) (hashToInt : List UInt8 → Int) (g1Gen : G) (jacZ : G → Fp) (jacX : G → Fp) (fpToInt : Fp → Int) (publicKey_A : G) (sigBin : List UInt8) (message : List UInt8) : Bool × Res :=
+  if isInfinity publicKey_A then
+    (false, (Res.err "invalid public key: point at infinity"))
+  else
+    if (!isOnCurve publicKey_A) then
+      (false, (Res.err "invalid public key: point not on curve"))
+    else
+      let r_v1 := sigSetBytesT sz n (List.replicate sz (0 : UInt8)) (List.replicate sz (0 : UInt8)) sigBin
+      let sig_R_v1 : List UInt8 := r_v1.2.2.1
+      let sig_S_v1 : List UInt8 := r_v1.2.2.2
+      if (r_v1.2.1 != Res.ok) then
+        (false, r_v1.2.1)
+      else
+        let r_v2 : Int := Int.ofNat (GV.beToNat sig_R_v1)
+        let s_v1 : Int := Int.ofNat (GV.beToNat sig_S_v1)
+        let new_v1 : Int := modInverse s_v1 n
+        let hashToInt_v1 : Int := hashToInt message
         let new_v2 : Int := hashToInt_v1 * new_v1
         let u1_v1 : Int := new_v2 % n
         let new_v3 : Int := r_v2 * new_v1
@@ -75,34 +110,6 @@ def ecdsaVerifyHashT {G Fp : Type} [Add G] [Sub G] [Neg G] [Zero G] [SMul Int G]
         let z_v1 : Int := fpToInt U_Z_v3
         let z_v2 : Int := z_v1 % n
         (((cmpInt z_v2 r_v2) == (0 : Int)), Res.ok)
-
-/-- TEMPLATE of the generated `PublicKey_Verify_nohash` -/
-def ecdsaVerifyNoHashT {G Fp : Type} [Add G] [Sub G] [Neg G] [Zero G] [SMul Int G] [Add Fp] [Sub Fp] [Mul Fp] [Inv Fp] [Zero Fp] [BEq Fp] (sz : Nat) (n : Int)
-    (isInfinity : G → Bool) (modInverse : Int → Int → Int) (hashToInt : List UInt8 → Int) (g1Gen : G) (jacZ : G → Fp) (jacX : G → Fp) (fpToInt : Fp → Int) (publicKey_A : G) (sigBin : List UInt8) (message : List UInt8) : Bool × Res :=
-  if isInfinity publicKey_A then
-    (false, (Res.err "invalid public key: point at infinity"))
-  else
-    let r_v1 := sigSetBytesT sz n (List.replicate sz (0 : UInt8)) (List.replicate sz (0 : UInt8)) sigBin
-    let sig_R_v1 : List UInt8 := r_v1.2.2.1
-    let sig_S_v1 : List UInt8 := r_v1.2.2.2
-    if (r_v1.2.1 != Res.ok) then
-      (false, r_v1.2.1)
-    else
-      let r_v2 : Int := Int.ofNat (GV.beToNat sig_R_v1)
-      let s_v1 : Int := Int.ofNat (GV.beToNat sig_S_v1)
-      let new_v1 : Int := modInverse s_v1 n
-      let hashToInt_v1 : Int := hashToInt message
-      let new_v2 : Int := hashToInt_v1 * new_v1
-      let u1_v1 : Int := new_v2 % n
-      let new_v3 : Int := r_v2 * new_v1
-      let u2_v1 : Int := new_v3 % n
-      let U_v1 : G := u1_v1 • g1Gen + u2_v1 • publicKey_A
-      let U_Z_v1 : Fp := jacZ U_v1 * jacZ U_v1
-      let U_Z_v2 : Fp := U_Z_v1⁻¹
-      let U_Z_v3 : Fp := U_Z_v2 * jacX U_v1
-      let z_v1 : Int := fpToInt U_Z_v3
-      let z_v2 : Int := z_v1 % n
-      (((cmpInt z_v2 r_v2) == (0 : Int)), Res.ok)
 
 /-! ### comparison primitives -/
 
@@ -145,6 +152,8 @@ def jacX {P sm} (U : EG P sm) : EF P.p := ⟨match U.p with | none => 0 | some (
 def jacZ {P sm} (U : EG P sm) : EF P.p := ⟨match U.p with | none => 0 | some _ => 1⟩
 def fpToInt {p} (a : EF p) : Int := Int.ofNat a.v
 def isInf {P sm} (U : EG P sm) : Bool := U.p.isNone
+/-- `IsOnCurve` of the model: the curve equation `y² = x³ + ax + b` of `P.E` -/
+def isOnC {P sm} (U : EG P sm) : Bool := P.E.onCurve U.p
 /-- `big.Int.ModInverse` of the model -/
 def modInv (a m : Int) : Int := Int.ofNat (invE m.toNat a.toNat)
 
@@ -154,7 +163,8 @@ def mkHash (wok : Bytes → Bool) (hsum : List Bytes → Bytes) : HashFn :=
 
 def errName : Err → String
   | .wrongSize => "errWrongSize" | .zero => "errZero" | .rBig => "errRBiggerThanRMod" | .sBig => "errSBiggerThanRMod"
-  | .hash => "hash.Write" | .pkInfinity => "invalid public key: point at infinity" | e => e.str
+  | .hash => "hash.Write" | .pkInfinity => "invalid public key: point at infinity"
+  | .notOnCurve => "invalid public key: point not on curve" | e => e.str
 
 /-- (bool, error) of a model verdict -/
 def toRes : Except Err Bool → Bool × Res
@@ -242,13 +252,16 @@ theorem final_cmp (a n r : Nat) : (cmpInt (Int.ofNat a % (n : Int)) (Int.ofNat r
 
 theorem ecdsaVerifyNoHashT_model (P : ECParams) (sm : Int → Pt Nat → Pt Nat) (hp : 1 < P.p) (Q : Pt Nat) (sig msg : Bytes)
     (hred : ∀ e r s x y, P.verifyPoint sm Q e r s = some (x, y) → x < P.p) :
-    ecdsaVerifyNoHashT (G := EG P sm) (Fp := EF P.p) P.frBytes (P.n : Int) isInf modInv (fun b => Int.ofNat (P.hashToInt b)) ⟨P.G⟩
+    ecdsaVerifyNoHashT (G := EG P sm) (Fp := EF P.p) P.frBytes (P.n : Int) isInf isOnC modInv (fun b => Int.ofNat (P.hashToInt b)) ⟨P.G⟩
         jacZ jacX fpToInt ⟨Q⟩ sig msg
-      = toRes (if Q.isNone then .error .pkInfinity else P.verify sm none Q sig msg) := by
-  unfold ecdsaVerifyNoHashT
+      = toRes (P.verifyPK sm none Q sig msg) := by
+  unfold ecdsaVerifyNoHashT ECParams.verifyPK
   by_cases hq : Q.isNone = true
   · simp [isInf, hq, toRes, errName]
-  · simp only [isInf, hq, Bool.false_eq_true, if_false]
+  by_cases hc : P.E.onCurve Q = true
+  swap
+  · simp [isInf, isOnC, hq, hc, toRes, errName]
+  · simp only [isInf, isOnC, hq, hc, Bool.not_true, Bool.false_eq_true, if_false]
     rw [sigSetBytesT_spec P _ _ sig (by simp) (by simp)]
     unfold ECParams.verify
     cases hsp : P.sigParse sig with
@@ -270,13 +283,16 @@ theorem ecdsaVerifyNoHashT_model (P : ECParams) (sm : Int → Pt Nat → Pt Nat)
 
 theorem ecdsaVerifyHashT_model (P : ECParams) (sm : Int → Pt Nat → Pt Nat) (hp : 1 < P.p) (wok : Bytes → Bool) (hsum : List Bytes → Bytes)
     (Q : Pt Nat) (sig msg : Bytes) (hred : ∀ e r s x y, P.verifyPoint sm Q e r s = some (x, y) → x < P.p) :
-    ecdsaVerifyHashT (G := EG P sm) (Fp := EF P.p) P.frBytes (P.n : Int) isInf modInv wok hsum (fun b => Int.ofNat (P.hashToInt b)) ⟨P.G⟩
+    ecdsaVerifyHashT (G := EG P sm) (Fp := EF P.p) P.frBytes (P.n : Int) isInf isOnC modInv wok hsum (fun b => Int.ofNat (P.hashToInt b)) ⟨P.G⟩
         jacZ jacX fpToInt ⟨Q⟩ sig msg
-      = toRes (if Q.isNone then .error .pkInfinity else P.verify sm (some (mkHash wok hsum)) Q sig msg) := by
-  unfold ecdsaVerifyHashT
+      = toRes (P.verifyPK sm (some (mkHash wok hsum)) Q sig msg) := by
+  unfold ecdsaVerifyHashT ECParams.verifyPK
   by_cases hq : Q.isNone = true
   · simp [isInf, hq, toRes, errName]
-  · simp only [isInf, hq, Bool.false_eq_true, if_false]
+  by_cases hc : P.E.onCurve Q = true
+  swap
+  · simp [isInf, isOnC, hq, hc, toRes, errName]
+  · simp only [isInf, isOnC, hq, hc, Bool.not_true, Bool.false_eq_true, if_false]
     rw [sigSetBytesT_spec P _ _ sig (by simp) (by simp)]
     unfold ECParams.verify
     cases hsp : P.sigParse sig with
@@ -305,27 +321,29 @@ theorem ecdsaVerifyHashT_model (P : ECParams) (sm : Int → Pt Nat → Pt Nat) (
         simp [hw, hm, toRes, errName]
 
 /-- ABSTRACT LEVEL (no model): over ANY types with the operations, the template (hence the Go text) returns `(true, nil)` exactly when
-the key is not the point at infinity, the signature has `2·sz` bytes, both halves `r, s` (big-endian) are in `[1, n−1]`, and
+the key is not the point at infinity and satisfies `isOnCurve`, the signature has `2·sz` bytes, both halves `r, s` (big-endian) are in `[1, n−1]`, and
 `fpToInt((Z²)⁻¹·X) mod n = r` for the Jacobian coordinates of `U = [e·s⁻¹ mod n]G + [r·s⁻¹ mod n]Q`, `e = hashToInt msg`,
 `s⁻¹ = modInverse s n`. There is NO separate test `U ≠ O` in the code (it is implied when `(Z²)⁻¹·X` of the infinity is 0 ≠ r). -/
 theorem ecdsaVerifyNoHashT_abstract {G Fp : Type} [Add G] [Sub G] [Neg G] [Zero G] [SMul Int G] [Add Fp] [Sub Fp] [Mul Fp] [Inv Fp] [Zero Fp] [BEq Fp]
-    (sz : Nat) (n : Int) (isInfinity : G → Bool) (modInverse : Int → Int → Int) (hashToInt : List UInt8 → Int) (g : G)
+    (sz : Nat) (n : Int) (isInfinity : G → Bool) (isOnCurve : G → Bool) (modInverse : Int → Int → Int) (hashToInt : List UInt8 → Int) (g : G)
     (jacZ jacX : G → Fp) (fpToInt : Fp → Int) (Q : G) (sig msg : List UInt8)
     (r s : Nat) (hr : r = beToNat (sig.take sz)) (hs : s = beToNat ((sig.drop sz).take sz))
     (U : G) (hU : U = (hashToInt msg * modInverse (s : Int) n % n) • g + ((r : Int) * modInverse (s : Int) n % n) • Q) :
-    ecdsaVerifyNoHashT sz n isInfinity modInverse hashToInt g jacZ jacX fpToInt Q sig msg = (true, Res.ok) ↔
-      (isInfinity Q = false ∧ sig.length = 2 * sz ∧ r ≠ 0 ∧ (r : Int) < n ∧ s ≠ 0 ∧ (s : Int) < n ∧
+    ecdsaVerifyNoHashT sz n isInfinity isOnCurve modInverse hashToInt g jacZ jacX fpToInt Q sig msg = (true, Res.ok) ↔
+      (isInfinity Q = false ∧ isOnCurve Q = true ∧ sig.length = 2 * sz ∧ r ≠ 0 ∧ (r : Int) < n ∧ s ≠ 0 ∧ (s : Int) < n ∧
         fpToInt ((jacZ U * jacZ U)⁻¹ * jacX U) % n = (r : Int)) := by
   subst hr hs hU
   have key : ∀ (res : Int × Res × List UInt8 × List UInt8),
       sigSetBytesT sz n (List.replicate sz (0 : UInt8)) (List.replicate sz (0 : UInt8)) sig = res → res.2.1 ≠ Res.ok →
-      ecdsaVerifyNoHashT sz n isInfinity modInverse hashToInt g jacZ jacX fpToInt Q sig msg ≠ (true, Res.ok) := by
+      ecdsaVerifyNoHashT sz n isInfinity isOnCurve modInverse hashToInt g jacZ jacX fpToInt Q sig msg ≠ (true, Res.ok) := by
     intro res h1 h2
     unfold ecdsaVerifyNoHashT
     rw [h1]
     by_cases hq : isInfinity Q = true
     · simp [hq]
-    · simp [hq, h2]
+    · by_cases hc : isOnCurve Q = true
+      · simp [hq, hc, h2]
+      · simp [hq, hc]
   have unf : ∀ r0 s0, sigSetBytesT sz n r0 s0 sig =
       if sig.length ≠ 2 * sz then ((0 : Int), (Res.err "errWrongSize"), r0, s0) else
       if beToNat (sig.take sz) = 0 then ((0 : Int), (Res.err "errZero"), r0, s0) else
@@ -338,6 +356,9 @@ theorem ecdsaVerifyNoHashT_abstract {G Fp : Type} [Add G] [Sub G] [Neg G] [Zero 
     simp only [cmpInt_eq_zero, cmpInt_ne_neg_one, Int.ofNat_eq_natCast, natCast_bne, decide_eq_true_eq, Int.natCast_eq_zero]
   by_cases hq : isInfinity Q = true
   · unfold ecdsaVerifyNoHashT; simp [hq]
+  by_cases hc : isOnCurve Q = true
+  swap
+  · unfold ecdsaVerifyNoHashT; simp [hq, hc]
   by_cases hl : sig.length = 2 * sz
   swap
   · have := key _ (unf _ _) (by simp [hl])
@@ -366,6 +387,6 @@ theorem ecdsaVerifyNoHashT_abstract {G Fp : Type} [Add G] [Sub G] [Neg G] [Zero 
   unfold ecdsaVerifyNoHashT
   rw [hsb]
   simp only [cmpInt_eq_zero]
-  simp [hq, hl, h1, h2, h3, h4]
+  simp [hq, hc, hl, h1, h2, h3, h4]
 
 end GV.SigGen
